@@ -415,6 +415,7 @@ struct GenOpts {
   int maxStr = 40;        // typical upper bound of generated strings
   bool allowRaw = false;  // raw values (JSON fragments)
   bool allowBin = false;  // raw values holding MessagePack bin/ext objects
+  bool binEdges = false;  // bin/ext payloads of 254..257 bytes too (8/16-bit length headers)
   bool allowNonFinite = true;
   bool allowNulInStr = true;
   bool allowNulInKey = false;
@@ -526,20 +527,34 @@ inline Val genScalar(Rng& r, const GenOpts& o) {
     // MessagePack bin 8 / fixext / ext 8 object
     std::string payload;
     size_t n = size_t(r.below(20));
+    if (o.binEdges && r.chance(1, 12)) {
+      static const size_t edges[] = {254, 255, 256, 257};
+      n = edges[r.below(4)];
+    }
     for (size_t j = 0; j < n; j++)
       payload += char(r.below(256));
     std::string s;
     if (r.chance(1, 2)) {
-      s += char(0xc4);
-      s += char(n);
+      if (n < 256) {
+        s += char(0xc4);
+        s += char(n);
+      } else {
+        s += char(0xc5);
+        s += char(n >> 8);
+        s += char(n & 0xff);
+      }
       s += payload;
     } else {
       char type = char(r.below(256));
       if (n == 1 || n == 2 || n == 4 || n == 8 || n == 16) {
         s += char(n == 1 ? 0xd4 : n == 2 ? 0xd5 : n == 4 ? 0xd6 : n == 8 ? 0xd7 : 0xd8);
-      } else {
+      } else if (n < 256) {
         s += char(0xc7);
         s += char(n);
+      } else {
+        s += char(0xc8);
+        s += char(n >> 8);
+        s += char(n & 0xff);
       }
       s += type;
       s += payload;
@@ -569,6 +584,57 @@ inline Val genValue(Rng& r, const GenOpts& o, int depth = 0) {
     v.o.emplace_back(key, genValue(r, o, depth + 1));
   }
   return v;
+}
+
+// recognises the MessagePack bin/ext objects the API can create itself
+inline bool asBin(const std::string& raw, std::string& payload) {
+  // the header the API itself would choose for that payload size (bin 8 / 16 / 32)
+  if (raw.empty())
+    return false;
+  unsigned c = (unsigned char)raw[0];
+  size_t hdr = c == 0xC4 ? 2 : c == 0xC5 ? 3 : c == 0xC6 ? 5 : 0;
+  if (!hdr || raw.size() < hdr)
+    return false;
+  size_t n = 0;
+  for (size_t j = 1; j < hdr; j++)
+    n = (n << 8) | (unsigned char)raw[j];
+  if (raw.size() != hdr + n)
+    return false;
+  size_t want = n >= 0x10000 ? 5 : n >= 0x100 ? 3 : 2;
+  if (hdr != want)
+    return false;
+  payload = raw.substr(hdr);
+  return true;
+}
+inline bool asExt(const std::string& raw, int8_t& type, std::string& payload) {
+  if (raw.empty())
+    return false;
+  unsigned c = (unsigned char)raw[0];
+  if (c >= 0xD4 && c <= 0xD8) {
+    size_t n = size_t(1) << (c - 0xD4);
+    if (raw.size() != n + 2)
+      return false;
+    type = int8_t(raw[1]);
+    payload = raw.substr(2);
+    return true;
+  }
+  size_t lenBytes = c == 0xC7 ? 1 : c == 0xC8 ? 2 : c == 0xC9 ? 4 : 0;
+  if (!lenBytes || raw.size() < 2 + lenBytes)
+    return false;
+  size_t n = 0;
+  for (size_t j = 1; j <= lenBytes; j++)
+    n = (n << 8) | (unsigned char)raw[j];
+  if (raw.size() != n + 2 + lenBytes)
+    return false;
+  // the header the API itself would choose for that payload size
+  size_t want = n >= 0x10000 ? 4 : n >= 0x100 ? 2 : 1;
+  if (lenBytes != want)
+    return false;
+  if (lenBytes == 1 && (n == 1 || n == 2 || n == 4 || n == 8 || n == 16))
+    return false;  // the API would have chosen a fixext
+  type = int8_t(raw[1 + lenBytes]);
+  payload = raw.substr(2 + lenBytes);
+  return true;
 }
 
 // depth-first visit
